@@ -129,7 +129,7 @@ type c09Sub struct {
 type c09KeyInfo struct {
 	index     int64
 	timestamp int64
-	restarts  int // number of restarts before the entry was logged
+	restarts  int      // number of restarts before the entry was logged
 	fps       []string // fingerprint lists (joined) of every accepted submission of this entry
 }
 
@@ -1094,4 +1094,3 @@ func c09ClipN(b []byte, n int) string {
 	}
 	return string(b)
 }
-
